@@ -72,10 +72,14 @@ def generate(seed, tier):
                         "body": body, "end": end,
                         "think": (wrng.choice((0.05, 0.3, 1.0, 3.0)) if wrng.random() < 0.35 else 0)})
         app_plan = [({"open": mrng.randint(0, 3), "close": mrng.randint(0, 2)} if mrng.random() < 0.5 else None) for _ in txs]
+        # 20% of the plain writers on file storage are multi-process writers (ix.writer(procs=N)): their
+        # sub-processes are simulated processes of their own fed through queues and job files
+        xr = random.Random("%s/mp/%d" % (seed, wi))
+        mp = ({"procs": xr.randint(2, 3), "batchsize": xr.randint(1, 3)} if (storage_kind == "file" and xr.random() < 0.2) else None)
         actors.append({"kind": "writer", "name": "W%d" % wi, "txs": txs,
                        "own_process": mrng.random() < 0.5,
                        "keep_errors": mrng.choice(("none", "none", "next", "end")),
-                       "app_plan": app_plan})
+                       "app_plan": app_plan, "mp": mp})
     # the AsyncWriter and BufferedWriter front-ends race the plain writers in 35% of the runs
     if mrng.random() < 0.35:
         for fi in range(mrng.randint(1, 2)):
@@ -264,6 +268,7 @@ def _plain(s, a):
     w.keep_errors = a.get("keep_errors", "none")
     w.app_plan = a.get("app_plan") or ()
     w.app_fds = []
+    w.extra_writer_kwargs = dict(a.get("mp") or {})
     return w
 
 
